@@ -120,9 +120,11 @@ def _topology(sysv):
     top = md.Topology()
     ch = top.add_chain()
     atoms = []
+    el = sysv.get("elements")
     for i in range(sysv["n"]):
         r = top.add_residue("M%d" % i, ch)
-        atoms.append(top.add_atom("C%d" % i, md.element.carbon, r))
+        e = md.element.carbon if not el else md.element.Element.getBySymbol(el[i])
+        atoms.append(top.add_atom("%s%d" % (e.symbol, i), e, r))
     for a, b in sysv["bonds"]:
         top.add_bond(atoms[a], atoms[b])
     return top
@@ -580,7 +582,8 @@ def run_item(arg):
                 notrigid = np.any(km != km[:, :1], axis=(1, 2))
                 if notrigid.any():
                     if mi in anch:
-                        st["anchor_not_rigid_recorded"] += int(notrigid.sum())
+                        rec(api, "anchor-molecule-not-moved-as-unit", "anchor molecule %s: its atoms get different lattice "
+                            "shifts" % (m,), notrigid)
                     else:
                         rec(api, "non-anchor-molecule-not-moved-as-unit", "molecule %s" % (m,), notrigid)
         if light:
@@ -827,7 +830,6 @@ def run(ctx):
         "dihedrals_excluded_ill_conditioned": tot["excluded_illcond"],
         "guess_anchor_molecules_raised_not_judged": tot["guess_raised"],
         "md_compute_distances_before_after_inconsistent_recorded": tot["md_inconsistent"],
-        "anchor_molecule_not_rigid_frames_recorded": tot["anchor_not_rigid_recorded"],
         "max_err_over_tol": err,
         "tolerance": "%d*eps32*(max|coordinate before/after| + sum|cell vector components|); x4 for distances, scaled by "
                      "1/length for angles" % C_TOL,
